@@ -4,6 +4,7 @@ from __future__ import annotations
 import ast
 from fractions import Fraction
 
+from .. import offsets as OF
 from .. import absval, bits as B, codec
 from ..model import AnalysisError, StructVal, dotted, norm_text, unparse, walk_no_nested
 from ..q import cmp_oriented, NONEXC, Fn
@@ -296,74 +297,101 @@ def r5(ctx):
 
 
 # ------------------------------------------------------------------------------------------ R6 strings
+def _offset_exits(ctx, m, cls):
+    """exits of <cls>.decode in the buffer-offset domain (sa/offsets.py), equalities of the path conditions applied"""
+    ci = m.get_class(cls)
+    ctx.require(ci is not None and "decode" in ci.methods, f"{m.relpath}: {cls}.decode vanished")
+    fn = ci.methods["decode"]
+    ctx.fn(m, f"{cls}.decode")
+    ps = [a.arg for a in fn.args.args]
+    ctx.require(len(ps) == 3, f"{m.relpath}: {cls}.decode(self, buffer, header) expected")
+    eng = OF.Offsets(ctx.repo, m, fn, ps[1], ps[2])
+    return fn, [OF.simplify_exit(e) for e in eng.analyse()]
+
+
+def _message_exits(exits, cls):
+    out = []
+    for ex in exits:
+        v = ex.value
+        if ex.kind == "return" and isinstance(v, OF.Obj) and isinstance(v.fields.get("message"), OF.Obj) and v.fields["message"].cls == cls:
+            out.append((ex, v.fields["message"].fields))
+    return out
+
+
+def _conds(ex):
+    return [OF.cfmt(c) for c in ex.conds]
+
+
 def r6(ctx):
     R = "C05.R6"
     for gen, sep in (("at4", "|"), ("at5", ",")):
         m = ctx.repo.module(f"pyairtouch.{gen}.comms.x1FFF30_console_ver")
         v = ctx.repo.try_fold(m, m.get_const_expr("VERSION_SEP"))
         ctx.check(v == sep, R, f"{gen}:VERSION_SEP", m, m.assign_nodes["VERSION_SEP"], repr(sep), repr(v))
-        f = Fn(ctx.repo, m, "ConsoleVersionDecoder.decode")
-        ctx.fn(m, "ConsoleVersionDecoder.decode")
-        buf = f.params[1]
-        rets = [n for n in f.cfg.nodes if n.kind == "stmt" and isinstance(n.ast, ast.Return)]
-        last = rets[-1] if rets else None
-        kw = {}
-        if last is not None:
-            for c in ast.walk(last.ast):
-                if isinstance(c, ast.Call) and (dotted(c.func) or "").endswith("ConsoleVersionMessage"):
-                    kw = {k.arg: f.expand_text(k.value, last) for k in c.keywords}
-        ok = kw.get("update_available") in (f"{buf}[0] != 0", f"bool({buf}[0])") and kw.get("versions") == f"{buf}[2:2 + {buf}[1]].decode(encoding=encoding.STRING_ENCODING).split(VERSION_SEP)"
-        ctx.check(ok, R, f"{gen}:ConsoleVersionDecoder", m, f.node, "update flag = byte 0 != 0; versions = bytes[2 : 2 + byte 1] decoded and split at VERSION_SEP", str(kw))
+        fn, exits = _offset_exits(ctx, m, "ConsoleVersionDecoder")
+        msgs = _message_exits(exits, "ConsoleVersionMessage")
+        ctx.require(msgs, f"{m.relpath}: ConsoleVersionDecoder.decode returns no ConsoleVersionMessage")
+        want = {"update_available": "b@(0) != 0", "versions": f"utf8(buffer[2:b@(1) + 2]).split({sep!r})"}
+        for ex, f in msgs:
+            got = {k: repr(x) for k, x in f.items()}
+            ctx.check(got == want, R, f"{gen}:ConsoleVersionDecoder", m, fn, "update flag = byte 0 != 0; versions = bytes[2 : 2 + byte 1] decoded as UTF-8 and split at VERSION_SEP", f"{got} when {_conds(ex)}")
         em = ctx.repo.module(f"pyairtouch.{gen}.comms.x1FFF10_err_info")
-        f = Fn(ctx.repo, em, "AcErrorInformationDecoder.decode")
-        ctx.fn(em, "AcErrorInformationDecoder.decode")
-        buf = f.params[1]
-        last = [n for n in f.cfg.nodes if n.kind == "stmt" and isinstance(n.ast, ast.Return)][-1]
-        kw = {}
-        for c in ast.walk(last.ast):
-            if isinstance(c, ast.Call) and (dotted(c.func) or "").endswith("AcErrorInformationMessage"):
-                kw = {k.arg: f.expand_text(k.value, last, keep={"error"}) for k in c.keywords}
-        errdefs = [n for n, v in [(n, n.ast.value) for n in f.cfg.nodes if n.kind == "stmt" and isinstance(n.ast, ast.Assign) and dotted(n.ast.targets[0]) == "error"]]
-        texts = [f.expand_text(n.ast.value, n) for n in errdefs]
-        ok = kw.get("ac_number") == f"{buf}[0]" and kw.get("error_info") == "error" and f"{buf}[2:2 + {buf}[1]].decode(encoding=encoding.STRING_ENCODING)" in texts and "None" in texts
-        ctx.check(ok, R, f"{gen}:AcErrorInformationDecoder", em, f.node, "AC = byte 0; text = bytes[2 : 2 + byte 1] decoded, None when the length is 0", f"{kw} {texts}")
+        fn, exits = _offset_exits(ctx, em, "AcErrorInformationDecoder")
+        msgs = _message_exits(exits, "AcErrorInformationMessage")
+        ctx.require(msgs, f"{em.relpath}: AcErrorInformationDecoder.decode returns no AcErrorInformationMessage")
+        seen = set()
+        for ex, f in msgs:
+            got = {k: repr(x) for k, x in f.items()}
+            cs = _conds(ex)
+            ok = got.get("ac_number") == "b@(0)" and set(got) == {"ac_number", "error_info"}
+            if got.get("error_info") == "None":
+                ok = ok and "b@(1) == 0" in cs
+                seen.add("none")
+            else:
+                ok = ok and got.get("error_info") == "utf8(buffer[2:b@(1) + 2])" and "b@(1) != 0" in cs
+                seen.add("text")
+            ctx.check(ok, R, f"{gen}:AcErrorInformationDecoder", em, fn, "AC = byte 0; text = bytes[2 : 2 + byte 1] decoded as UTF-8 exactly when byte 1 != 0, None when it is 0", f"{got} when {cs}")
+        ctx.check(seen == {"none", "text"}, R, f"{gen}:AcErrorInformationDecoder:both-cases", em, fn, "an error text when the length byte is non-zero and None when it is zero", str(sorted(seen)))
     # fixed-length C strings
     em = ctx.repo.module("pyairtouch.comms.encoding")
     fn = em.get_function("decode_c_string")
     rets = [x for x in ast.walk(fn) if isinstance(x, ast.Return)]
     txt = norm_text(rets[0].value) if len(rets) == 1 else ""
-    ctx.check(txt == "value.split(b'\\x00', 1)[0].decode(encoding=STRING_ENCODING)", R, "encoding.decode_c_string", em, fn, "everything before the first NUL, decoded as UTF-8", txt)
+    ctx.check(txt in ("value.split(b'\\x00', 1)[0].decode(encoding=STRING_ENCODING)", "value.partition(b'\\x00')[0].decode(encoding=STRING_ENCODING)"), R, "encoding.decode_c_string", em, fn, "everything before the first NUL, decoded as UTF-8", txt)
     enc = ctx.repo.try_fold(em, em.get_const_expr("STRING_ENCODING"))
     ctx.check(enc == "utf-8", R, "encoding.STRING_ENCODING", em, em.assign_nodes["STRING_ENCODING"], "'utf-8'", repr(enc))
     gm = ctx.repo.module("pyairtouch.at4.comms.x1FFF12_group_names")
-    nl = ctx.repo.try_fold(gm, gm.get_const_expr("_GROUP_NAME_LENGTH"))
-    ps = ctx.repo.try_fold(gm, gm.get_const_expr("_PER_GROUP_SIZE"))
-    ctx.check(nl == 8 and ps == 9, R, "at4:group-name-field", gm, gm.assign_nodes["_GROUP_NAME_LENGTH"], "8-byte name after a 1-byte group number (9 bytes per group)", f"{nl}/{ps}")
-    f = Fn(ctx.repo, gm, "GroupNamesDecoder.decode")
-    ctx.fn(gm, "GroupNamesDecoder.decode")
-    lp = next((x for x in ast.walk(f.node) if isinstance(x, ast.For)), None)
-    body = [norm_text(s) for s in lp.body] if lp else []
-    buf = f.params[1]
-    ok = lp is not None and norm_text(lp.iter) == f"range({f.params[2]}.message_length // _PER_GROUP_SIZE)" and f"group_number = {buf}[0]" in body and f"group_name = encoding.decode_c_string({buf}[1:_PER_GROUP_SIZE])" in body and f"{buf} = {buf}[_PER_GROUP_SIZE:]" in body
-    ctx.check(ok, R, "at4:GroupNamesDecoder:records", gm, f.node, "per group: number = byte 0, name = C string of bytes 1..8, advance 9", "; ".join(body)[:200])
+    fn, exits = _offset_exits(ctx, gm, "GroupNamesDecoder")
+    msgs = _message_exits(exits, "GroupNamesMessage")
+    ctx.require(msgs, f"{gm.relpath}: GroupNamesDecoder.decode returns no GroupNamesMessage")
+    for ex, f in msgs:
+        acc = f.get("group_names")
+        mine = [e for e in ex.emits if (isinstance(e, OF.Loop) and any(a == getattr(acc, "name", None) for a, _, _ in e.emits)) or (isinstance(e, tuple) and e[0] == getattr(acc, "name", None))]
+        cs = _conds(ex)
+        ok = isinstance(acc, OF.Acc) and len(mine) == 1 and isinstance(mine[0], OF.Loop)
+        desc = repr(mine)[:300]
+        if ok:
+            lp = mine[0]
+            cnt = OF.lfmt(lp.count) if lp.count is not None else None
+            ok = lp.kind == "for" and (cnt == "fd(ML,9)" or (cnt == "1/9*ML" and "mod(ML,9) == 0" in cs)) and [(repr(k), repr(v)) for _, k, v in lp.emits] == [("b@(9*k)", "cstr(buffer[9*k + 1:9*k + 9])")]
+        ctx.check(ok, R, "at4:GroupNamesDecoder:records", gm, fn, "record k of message_length // 9: group number = byte 9k, name = C string of bytes 9k+1 .. 9k+8", f"{desc} when {cs}")
     zm = ctx.repo.module("pyairtouch.at5.comms.x1FFF13_zone_names")
-    f = Fn(ctx.repo, zm, "ZoneNamesDecoder.decode")
-    ctx.fn(zm, "ZoneNamesDecoder.decode")
-    lp = next((x for x in ast.walk(f.node) if isinstance(x, ast.While)), None)
-    body = [norm_text(s) for s in lp.body] if lp else []
-    buf, hdr = f.params[1], f.params[2]
-    need = [f"zone_number = {buf}[offset]", f"name_length = {buf}[offset + 1]", "name_start = offset + 2", "name_end = name_start + name_length", f"zone_name = {buf}[name_start:name_end].decode(encoding=encoding.STRING_ENCODING)", "zone_names[zone_number] = zone_name", "offset = name_end"]
-    ok = lp is not None and norm_text(lp.test) == f"offset < {hdr}.message_length" and all(x in body for x in need)
-    ctx.check(ok, R, "at5:ZoneNamesDecoder:records", zm, f.node, "per zone: number, length byte, that many name bytes; next record right after", "; ".join(body)[:240])
-    # the upper bound of the slice that is decoded as the name must be compared against the announced length (either operand order)
-    uppers = {norm_text(x.slice.upper) for x in ast.walk(lp) if isinstance(x, ast.Subscript) and isinstance(x.slice, ast.Slice) and x.slice.upper is not None and dotted(x.value) == buf} if lp else set()
-    ok = False
-    for s_ in (lp.body if lp else []):
-        if isinstance(s_, ast.If) and any(isinstance(x, ast.Raise) for x in s_.body):
-            o = cmp_oriented(s_.test, lambda e: norm_text(e) == f"{hdr}.message_length")
-            if o is not None and o[1] == "<" and norm_text(o[2]) in uppers:
-                ok = True
-    ctx.check(ok, R, "at5:ZoneNamesDecoder:bounded", zm, f.node, "a name running past the announced length raises DecodeError", "no bound check")
+    fn, exits = _offset_exits(ctx, zm, "ZoneNamesDecoder")
+    msgs = _message_exits(exits, "ZoneNamesMessage")
+    ctx.require(msgs, f"{zm.relpath}: ZoneNamesDecoder.decode returns no ZoneNamesMessage")
+    for ex, f in msgs:
+        acc = f.get("zone_names")
+        mine = [e for e in ex.emits if (isinstance(e, OF.Loop) and any(a == getattr(acc, "name", None) for a, _, _ in e.emits)) or (isinstance(e, tuple) and e[0] == getattr(acc, "name", None))]
+        cs = _conds(ex)
+        ok = isinstance(acc, OF.Acc) and len(mine) == 1 and isinstance(mine[0], OF.Loop)
+        lp = mine[0] if ok else None
+        if ok:
+            ok = (lp.kind == "while" and lp.head is not None and OF.cfmt(lp.head) == "-1*ML + p < 0" and {k: OF.lfmt(v) for k, v in lp.init.items()} == {"p": "0"}
+                  and {k: OF.lfmt(v) for k, v in lp.stride.items()} == {"p": "b@(p + 1) + 2"}
+                  and [(repr(k), repr(v)) for _, k, v in lp.emits] == [("b@(p)", "utf8(buffer[p + 2:b@(p + 1) + p + 2])")])
+        ctx.check(ok, R, "at5:ZoneNamesDecoder:records", zm, fn, "from position 0 while position < message_length: zone = byte p, length = byte p+1, name = UTF-8 of bytes p+2 .. p+2+length; next record at p+2+length", f"{mine!r} when {cs}"[:400])
+        bounded = lp is not None and any("ML - 1*b@(p + 1) - 1*p - 2 < 0" in [OF.cfmt(c) for c in r] and len(r) == 1 for r in lp.raises)
+        ctx.check(bounded, R, "at5:ZoneNamesDecoder:bounded", zm, fn, "a name running past the announced length raises DecodeError", f"raises in the loop: {[[OF.cfmt(c) for c in r] for r in lp.raises] if lp else None}")
     # ability names
     for gen in ("at4", "at5"):
         am = ctx.repo.module(f"pyairtouch.{gen}.comms.x1FFF11_ac_ability")
